@@ -1,2 +1,3 @@
 import AslModel.Props.C04
 import AslModel.Props.C02
+import AslModel.Props.C01
